@@ -819,6 +819,23 @@ fn g_hist(out: &mut Out, rng: &mut Rng, count: usize) -> io::Result<()> {
         let n = 1 + rng.below(4);
         let cap = rng.below(6);
         let mut l = format!("hist {} {} {}", if isreq { "req" } else { "resp" }, cap, n);
+        if rng.chance(1, 2) {
+            // the documented loop: growing prefixes of one message (same memory in the harness), the
+            // configuration possibly changing between the calls
+            let (t, cfgs) = if isreq { rng.pick(REQ_TEMPLATES) } else { rng.pick(RESP_TEMPLATES) };
+            let mut s = t.to_vec();
+            if rng.chance(1, 3) { mutate(rng, &mut s); }
+            let mut cuts: Vec<usize> = (0..n).map(|_| if rng.chance(1, 3) { s.len() } else { rng.below(s.len() + 1) }).collect();
+            if rng.chance(2, 3) { cuts.sort_unstable(); }
+            cuts.push(if rng.chance(3, 4) { s.len() } else { rng.below(s.len() + 1) });
+            for &c in &cuts {
+                let cfg = match rng.below(3) { 0 => 0, 1 => *rng.pick(cfgs), _ => rng.below(128) as u32 };
+                let entry = if rng.chance(1, 4) { 3 } else if cfg == 0 && rng.chance(1, 2) { 0 } else { 1 };
+                l.push_str(&format!(" {} {} {}", entry, cfg, hex(&s[..c])));
+            }
+            writeln!(out, "{}", l)?;
+            continue;
+        }
         for _ in 0..=n {
             let (mut s, cfg) = if isreq {
                 let (t, cfgs) = rng.pick(REQ_TEMPLATES);
@@ -1002,6 +1019,142 @@ fn g_hrel(out: &mut Out, rng: &mut Rng, count: usize) -> io::Result<()> {
     Ok(())
 }
 
+
+/// G12: long runs of every repeatable element of the grammar (counters narrower than usize, "hardening"
+/// limits, fixed-size scratch): run lengths just past 2^8, 2^10, 2^12 (quick) and past 2^16 (thorough),
+/// under the option set that gives the run its lenient meaning and under the default.  Returns
+/// (kind, cfg, cap, complete buffer, offset just past the run).
+fn long_runs(thorough: bool) -> Vec<(&'static str, u32, usize, Vec<u8>, usize)> {
+    let lens: Vec<usize> = if thorough { vec![257, 1025, 4097, 65537] } else { vec![257, 1025, 4097] };
+    let mut v: Vec<(&'static str, u32, usize, Vec<u8>, usize)> = Vec::new();
+    let mk = |pre: &[u8], unit: &[u8], n: usize, post: &[u8]| -> (Vec<u8>, usize) {
+        let mut s = pre.to_vec();
+        for _ in 0..n { s.extend_from_slice(unit); }
+        let at = s.len();
+        s.extend_from_slice(post);
+        (s, at)
+    };
+    let mut extra: Vec<(&'static str, u32, usize, Vec<u8>, usize)> = Vec::new();
+    for &n in &lens {
+        let mut add = |kind: &'static str, cfgs: &[u32], cap: usize, pre: &[u8], unit: &[u8], post: &[u8]| {
+            let (s, at) = mk(pre, unit, n, post);
+            for &c in cfgs { v.push((kind, c, cap, s.clone(), at)); }
+        };
+        // start lines
+        add("req", &[0], 2, b"", b"\r\n", b"GET / HTTP/1.1\r\nA: b\r\n\r\n");
+        add("req", &[0], 2, b"", b"\n", b"GET / HTTP/1.1\r\nA: b\r\n\r\n");
+        add("resp", &[0], 2, b"", b"\r\n", b"HTTP/1.1 200 OK\r\nA: b\r\n\r\n");
+        add("resp", &[0], 2, b"", b"\n", b"HTTP/1.1 200 OK\r\nA: b\r\n\r\n");
+        add("req", &[0], 2, b"", b"M", b" / HTTP/1.1\r\nA: b\r\n\r\n");
+        add("req", &[4, 0, 127], 2, b"GET", b" ", b"/ HTTP/1.1\r\nA: b\r\n\r\n");
+        add("req", &[0], 2, b"GET /", b"a", b" HTTP/1.1\r\nA: b\r\n\r\n");
+        add("req", &[0], 2, b"GET /", b"\xc3\xa9", b" HTTP/1.1\r\nA: b\r\n\r\n");
+        add("req", &[4, 0, 127], 2, b"GET /", b" ", b"HTTP/1.1\r\nA: b\r\n\r\n");
+        add("resp", &[8, 0, 127], 2, b"HTTP/1.1", b" ", b"200 OK\r\nA: b\r\n\r\n");
+        add("resp", &[8, 0, 127], 2, b"HTTP/1.1 200", b" ", b"OK\r\nA: b\r\n\r\n");
+        add("resp", &[8, 0], 2, b"HTTP/1.1 200", b" ", b"\r\nA: b\r\n\r\n");
+        add("resp", &[0, 8], 2, b"HTTP/1.1 200 ", b"r", b"\r\nA: b\r\n\r\n");
+        add("resp", &[0, 8], 2, b"HTTP/1.1 200 O", b" ", b"K \r\nA: b\r\n\r\n");
+        add("resp", &[0], 2, b"HTTP/1.1 200 ", b"\t\xff", b"\nA: b\n\n");
+        // header lines (request, response, parse_headers)
+        for (kind, start) in [("req", &b"GET / HTTP/1.1\r\n"[..]), ("resp", &b"HTTP/1.1 200 OK\r\n"[..]), ("hdrs", &b""[..])] {
+            let cat = |a: &[u8], b: &[u8]| -> Vec<u8> { let mut x = a.to_vec(); x.extend_from_slice(b); x };
+            let all: &[u32] = if kind == "hdrs" { &[0] } else { &[0, 127] };
+            add(kind, all, 2, &cat(start, b""), b"N", b": v\r\n\r\n");
+            add(kind, all, 2, &cat(start, b"A:"), b" ", b"v\r\n\r\n");
+            add(kind, all, 2, &cat(start, b"A:"), b"\t", b"v\r\nB: c\r\n\r\n");
+            add(kind, all, 2, &cat(start, b"A:"), b" ", b"\r\n\r\n");
+            add(kind, all, 2, &cat(start, b"A: "), b"v", b"\r\n\r\n");
+            add(kind, all, 2, &cat(start, b"A: v"), b"\t", b"w\r\n\r\n");
+            add(kind, all, 2, &cat(start, b"A: v"), b" x", b"\r\n\r\n");
+            add(kind, all, 2, &cat(start, b"A: v"), b"\xff\x80", b"\n\n");
+            add(kind, all, 2, &cat(start, b"A: v"), b" ", b"\r\n\r\n");
+            add(kind, all, 2, &cat(start, b"A: v"), b"\t", b"\nB: c\n\n");
+            if kind == "resp" {
+                add(kind, &[1, 0, 33], 2, &cat(start, b"A"), b" ", b": v\r\n\r\n");
+                add(kind, &[1, 0], 2, &cat(start, b"A"), b"\t", b":v\r\n\r\n");
+                add(kind, &[2, 0, 34], 2, &cat(start, b"A: b\r\n"), b" c\r\n", b"D: e\r\n\r\n");
+                add(kind, &[2, 34], 2, &cat(start, b"A:"), b"\r\n ", b"v\r\n\r\n");
+                add(kind, &[2], 2, &cat(start, b"A: b"), b"\n\t", b"\n\n");
+                add(kind, &[2, 0], 2, &cat(start, b"A: b\r\n"), b" ", b"c\r\n\r\n");
+                add(kind, &[32, 0, 34], 2, &cat(start, b""), b":\n", b"A: b\r\n\r\n");
+                add(kind, &[32, 0], 2, &cat(start, b"A: b\r\n"), b"junk without colon\r\n", b"\r\n");
+                add(kind, &[32, 0], 2, &cat(start, b"bad"), b" junk", b"\r\nA: b\r\n\r\n");
+            }
+            if kind == "req" {
+                add(kind, &[64, 0, 80], 2, &cat(start, b""), b":\n", b"A: b\r\n\r\n");
+                add(kind, &[64, 0], 2, &cat(start, b"A: b\r\n"), b"junk without colon\r\n", b"\r\n");
+                add(kind, &[64, 0], 2, &cat(start, b"bad"), b" junk", b"\r\nA: b\r\n\r\n");
+            }
+            if kind != "hdrs" {
+                add(kind, &[16, 0, 127], 2, &cat(start, b""), b" ", b"A: b\r\n\r\n");
+                add(kind, &[16, 0], 2, &cat(start, b""), b"\t", b"A: b\r\nC: d\r\n\r\n");
+                add(kind, &[16, 0], 2, &cat(start, b""), b" ", b"\r\n");
+            }
+            // many header lines: fitting, one too few, far too few
+            let (s, at) = mk(&cat(start, b""), b"k: v\r\n", n, b"\r\n");
+            // (beyond a few thousand lines the executable model's header list makes one case take minutes;
+            // the large-input stage counts the headers of 50 000-line heads instead)
+            if n <= 5000 { for cap in [n + 1, n, n - 1, 3] { extra.push((kind, 0, cap, s.clone(), at)); } }
+        }
+        // chunk size lines
+        add("chunk", &[0], 0, b"", b"0", b"1\r\n");
+        add("chunk", &[0], 0, b"1f", b" ", b"\r\n");
+        add("chunk", &[0], 0, b"1f", b"\t", b";x\r\n");
+        add("chunk", &[0], 0, b"1f", b" \t", b";x\r\n");
+        add("chunk", &[0], 0, b"1f;", b"x", b"\r\n");
+        add("chunk", &[0], 0, b"1f ;", b" \n;\t", b"\r\n");
+    }
+    v.append(&mut extra);
+    v
+}
+
+fn g_longruns(out: &mut Out, thorough: bool, mode: &str) -> io::Result<()> {
+    for (kind, cfg, cap, s, at) in long_runs(thorough) {
+        // (the executable model is quadratic in the length of a single token: the longest runs are judged
+        // once, whole, under the default and the run's own option only, and only runs of one-byte units)
+        if s.len() > 20000 {
+            if s.len() < 67000 && cfg != 127 && (mode == "core" || (mode == "cfgpair" && cfg != 0 && kind != "hdrs" && kind != "chunk")) {
+                if mode == "core" { line(out, kind, cfg, cap, &s)?; } else { writeln!(out, "cfgpair {} 0 {} {} {}", kind, cfg, cap, hex(&s))?; }
+            }
+            continue;
+        }
+        match mode {
+            "core" => {
+                line(out, kind, cfg, cap, &s)?;
+                // cut inside the run, right after it, and just before the end
+                for cut in [at / 2, at, at + 1, s.len() - 1] {
+                    if cut < s.len() { line(out, kind, cfg, cap, &s[..cut])?; }
+                }
+            }
+            "cfgpair" => {
+                if kind == "req" || kind == "resp" {
+                    if cfg != 0 { writeln!(out, "cfgpair {} 0 {} {} {}", kind, cfg, cap, hex(&s))?; }
+                    else { writeln!(out, "cfgpair {} 0 127 {} {}", kind, cap, hex(&s))?; }
+                }
+            }
+            "entries" => {
+                if kind == "req" { writeln!(out, "reqall {} {} {}", cfg, cap, hex(&s))?; }
+                if kind == "resp" { writeln!(out, "respall {} {} {}", cfg, cap, hex(&s))?; }
+            }
+            "hrel" => {
+                if kind == "hdrs" { writeln!(out, "hrel {} {}", cap, hex(&s))?; }
+            }
+            "caps" => {
+                if (kind == "req" || kind == "resp") && cap == 2 && s.len() < 3000 { writeln!(out, "capsweep {} {} 3 {}", kind, cfg, hex(&s))?; }
+            }
+            "hist" => {
+                // the documented loop: the same value sees a prefix that ends inside the run, then the whole
+                if kind == "req" || kind == "resp" {
+                    writeln!(out, "hist {} {} 2 1 {} {} 1 {} {} 1 {} {}", kind, cap, cfg, hex(&s[..at / 2]), cfg, hex(&s[..at]), cfg, hex(&s))?;
+                }
+            }
+            _ => {}
+        }
+    }
+    Ok(())
+}
+
 pub fn cmd_gen(args: &[String]) -> io::Result<()> {
     let family = args.get(0).map(|s| s.as_str()).unwrap_or("core");
     let thorough = args.get(1).map(|s| s.as_str()) == Some("thorough");
@@ -1016,6 +1169,7 @@ pub fn cmd_gen(args: &[String]) -> io::Result<()> {
             g6(&mut out)?;
             g3(&mut out, &mut rng, thorough)?;
             g4(&mut out, &mut rng, if thorough { 2_000_000 } else { 150_000 })?;
+            g_longruns(&mut out, thorough, "core")?;
         }
         "block" => g2(&mut out, if thorough { 5 } else { 4 }, thorough)?,
         "chunk" => {
@@ -1025,14 +1179,14 @@ pub fn cmd_gen(args: &[String]) -> io::Result<()> {
         "scan" => g8(&mut out, &mut rng, thorough)?,
         "swar" => g_swar(&mut out, &mut rng, thorough)?,
         "utf8" => g_utf8(&mut out, &mut rng, thorough)?,
-        "entries" => g_entries(&mut out, &mut rng, if thorough { 200_000 } else { 10_000 })?,
-        "hist" => g_hist(&mut out, &mut rng, if thorough { 400_000 } else { 30_000 })?,
+        "entries" => { g_entries(&mut out, &mut rng, if thorough { 200_000 } else { 10_000 })?; g_longruns(&mut out, false, "entries")?; }
+        "hist" => { g_hist(&mut out, &mut rng, if thorough { 400_000 } else { 30_000 })?; g_longruns(&mut out, false, "hist")?; }
         "place" => g_place(&mut out, &mut rng, if thorough { 300_000 } else { 20_000 })?,
         "classes" => writeln!(out, "classes")?,
-        "caps" => g_caps(&mut out, &mut rng, if thorough { 300_000 } else { 20_000 })?,
+        "caps" => { g_caps(&mut out, &mut rng, if thorough { 300_000 } else { 20_000 })?; g_longruns(&mut out, false, "caps")?; }
         "split" => g_split(&mut out, &mut rng, if thorough { 300_000 } else { 12_000 })?,
-        "cfgpair" => g_cfgpair(&mut out, &mut rng, if thorough { 1_000_000 } else { 60_000 }, thorough)?,
-        "hrel" => g_hrel(&mut out, &mut rng, if thorough { 1_000_000 } else { 60_000 })?,
+        "cfgpair" => { g_cfgpair(&mut out, &mut rng, if thorough { 1_000_000 } else { 60_000 }, thorough)?; g_longruns(&mut out, thorough, "cfgpair")?; }
+        "hrel" => { g_hrel(&mut out, &mut rng, if thorough { 1_000_000 } else { 60_000 })?; g_longruns(&mut out, false, "hrel")?; }
         _ => {
             eprintln!("unknown family {}", family);
             std::process::exit(2);
@@ -1084,6 +1238,18 @@ pub fn cost_families(n: usize) -> Vec<(&'static str, &'static str, u32, Vec<u8>)
     v.push(("multi-spaces", "req", 4, fill_to(b"GET ".to_vec(), b" ", n, b"/ HTTP/1.1\r\n\r\n")));
     v.push(("partial-folds", "resp", 2, fill_to(rs.clone(), b"A: b\r\n c\r\n", n, b"")));
     v.push(("chunk-extension", "chunk", 0, fill_to(b"1f;".to_vec(), b"x", n, b"\r\n")));
+    v.push(("chunk-lws", "chunk", 0, fill_to(b"1f".to_vec(), b" ", n, b"\r\n")));
+    v.push(("chunk-lws-ext", "chunk", 0, fill_to(b"1f".to_vec(), b"\t ", n, b";x\r\n")));
+    v.push(("multi-spaces-resp-code", "resp", 8, fill_to(b"HTTP/1.1 200".to_vec(), b" ", n, b"OK\r\n\r\n")));
+    v.push(("multi-spaces-resp-version", "resp", 8, fill_to(b"HTTP/1.1".to_vec(), b" ", n, b"200 OK\r\n\r\n")));
+    v.push(("multi-spaces-req-version", "req", 4, fill_to(b"GET /".to_vec(), b" ", n, b"HTTP/1.1\r\n\r\n")));
+    v.push(("long-target-utf8(swar-near-miss)", "req", 0, fill_to(b"GET /".to_vec(), b"\xc3\xa9", n, b" HTTP/1.1\r\n\r\n")));
+    let mut a = rq.clone(); a.extend_from_slice(b"a");
+    v.push(("long-header-name", "req", 0, fill_to(a, b"!#$%&'*+-.^_`|~09AZaz", n, b": v\r\n\r\n")));
+    v.push(("long-method", "req", 0, fill_to(Vec::new(), b"M", n, b" / HTTP/1.1\r\n\r\n")));
+    v.push(("reason-obs-text", "resp", 0, fill_to(b"HTTP/1.1 200 ".to_vec(), b"\t\xff ", n, b"\r\n\r\n")));
+    let mut a = rs.clone(); a.extend_from_slice(b"A: v");
+    v.push(("value-alternating(near-miss-every-block)", "resp", 0, fill_to(a, b"abcdefg\tabcdefghijklmn\x80", n, b"\r\n\r\n")));
     v
 }
 
@@ -1093,6 +1259,44 @@ pub fn cmd_cost(args: &[String]) {
     let factor: usize = args.get(1).and_then(|s| s.parse().ok()).unwrap_or(8);
     let reps: usize = args.get(2).and_then(|s| s.parse().ok()).unwrap_or(7);
     let only: Option<&String> = args.get(3);
+    // work must not depend on the *capacity* of the header array either (C20: "bounded by a constant times
+    // the buffer length"): the same small message with a 16-slot and a 2^20-slot array, every entry point
+    if only.is_none() || only.map(|s| s.as_str()) == Some("capacity") {
+        use std::mem::MaybeUninit;
+        let rq: &[u8] = b"GET / HTTP/1.1\r\nA: b\r\n\r\n";
+        let rs: &[u8] = b"HTTP/1.1 200 OK\r\nA: b\r\n\r\n";
+        let hd: &[u8] = b"A: b\r\n\r\n";
+        let cfg = httparse::ParserConfig::default();
+        for entry in ["req.parse", "req.cfg", "req.uninit", "resp.parse", "resp.cfg", "resp.uninit", "hdrs", "req.partial", "resp.err"] {
+            let mut row = Vec::new();
+            for cap in [16usize, 1 << 20] {
+                let mut headers = vec![httparse::EMPTY_HEADER; cap];
+                let mut uninit: Vec<MaybeUninit<httparse::Header<'_>>> = Vec::with_capacity(cap);
+                // SAFETY: MaybeUninit needs no initialisation
+                unsafe { uninit.set_len(cap) };
+                let mut best = u128::MAX;
+                for _ in 0..reps.max(5) {
+                    let t0 = Instant::now();
+                    let ok = match entry {
+                        "req.parse" => { let mut r = httparse::Request::new(&mut headers); r.parse(rq).is_ok() }
+                        "req.cfg" => { let mut r = httparse::Request::new(&mut headers); cfg.parse_request(&mut r, rq).is_ok() }
+                        "req.uninit" => { let mut r = httparse::Request::new(&mut []); cfg.parse_request_with_uninit_headers(&mut r, rq, &mut uninit).is_ok() }
+                        "resp.parse" => { let mut r = httparse::Response::new(&mut headers); r.parse(rs).is_ok() }
+                        "resp.cfg" => { let mut r = httparse::Response::new(&mut headers); cfg.parse_response(&mut r, rs).is_ok() }
+                        "resp.uninit" => { let mut r = httparse::Response::new(&mut []); cfg.parse_response_with_uninit_headers(&mut r, rs, &mut uninit).is_ok() }
+                        "hdrs" => httparse::parse_headers(hd, &mut headers).is_ok(),
+                        "req.partial" => { let mut r = httparse::Request::new(&mut headers); r.parse(&rq[..rq.len() - 2]).is_ok() }
+                        _ => { let mut r = httparse::Response::new(&mut headers); r.parse(b"HTTP/1.1 200 OK\r\nA: b\r\nbad\r\n\r\n").is_ok() }
+                    };
+                    let dt = t0.elapsed().as_nanos();
+                    std::hint::black_box(ok);
+                    if dt < best { best = dt; }
+                }
+                row.push(best);
+            }
+            println!("capcost {} cap16_ns={} cap1m_ns={}", entry, row[0], row[1]);
+        }
+    }
     for size in [small, small * factor] {
         for (name, kind, cfg, buf) in cost_families(size) {
             if let Some(o) = only { if o != name { continue; } }
